@@ -328,13 +328,14 @@ def check_C03(ctx):
 
 def check_C04(ctx):
     planner_family(ctx, "C04", qdeps=1)
-    exec_family(ctx, "C04", extra=["--modes", "disp,par,seq,tlonly,disp", "--ptl", 0.1], mc=("tl", "batch"),
+    exec_family(ctx, "C04", extra=["--modes", "disp,par,seq,tlonly,disp", "--ptl", 0.1, "--ppanic", 0.15], mc=("tl", "batch"),
                 mc_thorough=("flat2", "deps", "batchseq"))
 
 
 def check_C05(ctx):
     exec_family(ctx, "C05", nopar=True, mc=("flat", "batchseq"), mc_thorough=("flat2", "deps", "tl", "batch"))
-    exec_s2i(ctx, "C05", modes='{"par"}' if ctx.quick() else '{"par", "seq"}', maxforce=1500 if ctx.quick() else 30000)
+    # running-time hints 1 and 3: the group-append path of the planner is part of the plans that are run
+    exec_s2i(ctx, "C05", res="{1}" if ctx.quick() else "{1,2}", times="{1,3}", modes='{"par"}', maxforce=2000 if ctx.quick() else 30000)
 
 
 def check_C07(ctx):
